@@ -75,26 +75,26 @@ COMMON = (" Since rounds 4-7 of the seeded regressions the workload also contain
           "every lexical form of a number (exponent spellings, decimals no float64 holds exactly; instances also validated in json.Number form) and keywords of the other draft as unknown keywords. "
           "Since round 9: the empty and the separator-only names in every name pool, characters inside strings re-spelled as escapes in re-laid documents, nests of 7-129 single-branch applicators among the size stresses.")
 EXTRA = {
- "C09": " Tags with blanks around their elements (typecorpus.SpacedTags).",
+ "C09": " Tags with blanks around their elements (typecorpus.SpacedTags). time.Duration, time.Month, time.Weekday as leaf types; embedded structs hidden by a shallower Go name.",
  "C07": " A fifth of the object cases rename one instance name to a name the schema does not know (empty, blank, separators).",
  "C01": " Every comparison also validates the json.Number form of the instance in another lexical spelling; foreign-draft dependency keywords as unknown keywords.",
- "C02": " Shadowed fragment ids beside $ref, tuple + additionalItems beside an items branch, a caching Loader used by roots of the other draft first.",
+ "C02": " Shadowed fragment ids beside $ref, tuple + additionalItems beside an items branch, a caching Loader used by roots of the other draft first. nestedDependencies: draft-07 dependencies at two levels (array and schema form) over disjoint or equal name sets.",
  "C03": " Base URIs with (also empty) queries, near-variant id decoys, alias leaves ($ref + one sibling) as reference targets, a lexical $dynamicRef beside $ref. 2020-12 anchor names with a leading underscore, dots and underscores.",
- "C10": " Mixed-draft pairs (root of one draft, Loader document declaring the other, nodes with keywords of both), a Loader answering (nil, nil), nil map instances, pointer references with indices around 2^31/2^63/2^64. Go-built Schema values carry non-finite and extreme float64 keyword values and are validated against whenever Resolve accepts them (also when Marshal refuses them); ForType on the nil reflect.Type; deep applicator nests as documents.",
+ "C10": " Mixed-draft pairs (root of one draft, Loader document declaring the other, nodes with keywords of both), a Loader answering (nil, nil), nil map instances, pointer references with indices around 2^31/2^63/2^64. Go-built Schema values carry non-finite and extreme float64 keyword values and are validated against whenever Resolve accepts them (also when Marshal refuses them); ForType on the nil reflect.Type; deep applicator nests as documents. A *Schema inside examples/enum/const of a Go-built Schema with a pointer reference to it.",
  "C04": " Corpus and reflect-built types include embedded fields encoding/json does not flatten (name tags, '-', non-struct types, pointers to unexported structs), untranslatable kinds with marshalers and TypeSchemas entries, one field name promoted three times, pointer-then-value repeats. json.Number and *json.Number are leaf types of the random type generator (values in several spellings).",
  "C05": " Boolean documents are also decoded into re-used targets; bytes returned by direct Schema.MarshalJSON calls are held and re-compared after later calls.",
- "C06": " Decoy resources declaring the anchor are entered through failing anyOf/not/if/contains branches before the real path; up to 130 unrelated dynamic anchor names; objects with a plain and a dynamic anchor of different names. The final $dynamicRef may sit under propertyNames (the marker travels as a property name down both chains of a fork).",
- "C08": " Pointer towers: recursive schemas over 10-2000 nested levels with 0-2 pointers per level; homogeneous typed arrays under items/contains + unevaluatedItems.",
+ "C06": " Decoy resources declaring the anchor are entered through failing anyOf/not/if/contains branches before the real path; up to 130 unrelated dynamic anchor names; objects with a plain and a dynamic anchor of different names. The final $dynamicRef may sit under propertyNames (the marker travels as a property name down both chains of a fork). Re-entry chains: the resource holding the final reference is entered, left for a new resource and entered again.",
+ "C08": " Pointer towers: recursive schemas over 10-2000 nested levels with 0-2 pointers per level; homogeneous typed arrays under items/contains + unevaluatedItems. Wrap-around images: a power of two in enum/const, what a narrowing integer conversion makes of it as the instance, in every integer kind; [N]uint8 arrays; decimals within half an ulp of an integer.",
  "C11": " Towers of up to 1001 containers, aliased prefix rows of one backing array, same-type []json.Number with respelled members.",
- "C12": " Arrays of 13-257 mostly unique items with hash-colliding unequal members; aliased prefix rows in enum/const; uniqueItems beside prefixItems and an items schema listing exactly the remaining values. A second uniqueItems check after a failing one swallowed by not / if / anyOf within the same call.",
- "C13": " Shared Resolved built with ValidateDefaults and object/array defaults; Go-built schemas (absent trailing PropertyOrder names, shared sub-schema objects) in the concurrent Marshal workload; one ResolveOptions value shared by all goroutines; a cold document with escaped pointers that only goroutines resolve. In a third of the processes every goroutine starts with a call that fails (ValidateDefaults on $dynamicRef, a rejected default, no Loader, a bad pattern, a dangling pointer).",
- "C14": " loaderHistory: one caching Loader serving the same *Schema to five roots of different drafts in a seeded order, each outcome compared with the root resolved alone, options compared before/after; long uniqueItems arrays with hash colliders; case-variant sibling names; several spellings of one anchored literal pattern. numberHistory: one exponent literal near the float64 limit under fixed schemas before and after a fractional multipleOf judged the same literal.",
- "C15": " Property names that are other names joined by a separator, with required lists that join to the same text; defaults beside references in both drafts (L5).",
- "C16": " TypeSchemas tables of up to 15 entries, overrides of every built-in translation, entries keyed by unnamed types or written in tuple-items form, decoy inference calls with other options first, JSON-name collision types (acceptance by Resolve/Marshal only), self-referential pointer and array types. Entries that name other properties than the embedded struct's fields, embedded by value and by pointer (substitution itself is checked); results inferred without caller entries are written THROUGH their number pointers before the next call; json.Number fields.",
- "C17": " A fifth of the valid locations is served by a Loader (document URI + pointer fragment); a lexical $dynamicRef may sit beside the $ref; root $id spellings that need normalising. Invalid class other-definitions-keyword (/definitions/... where only $defs exists).",
+ "C12": " Arrays of 13-257 mostly unique items with hash-colliding unequal members; aliased prefix rows in enum/const; uniqueItems beside prefixItems and an items schema listing exactly the remaining values. A second uniqueItems check after a failing one swallowed by not / if / anyOf within the same call. Seam colliders for every separator byte 0..32 and the arrangement X, Y, X; [N]uint8 items.",
+ "C13": " Shared Resolved built with ValidateDefaults and object/array defaults; Go-built schemas (absent trailing PropertyOrder names, shared sub-schema objects) in the concurrent Marshal workload; one ResolveOptions value shared by all goroutines; a cold document with escaped pointers that only goroutines resolve. In a third of the processes every goroutine starts with a call that fails (ValidateDefaults on $dynamicRef, a rejected default, no Loader, a bad pattern, a dangling pointer). In those processes with 8 or 16 goroutines each goroutine then validates a tree nested 2500 levels at the same time.",
+ "C14": " loaderHistory: one caching Loader serving the same *Schema to five roots of different drafts in a seeded order, each outcome compared with the root resolved alone, options compared before/after; long uniqueItems arrays with hash colliders; case-variant sibling names; several spellings of one anchored literal pattern. numberHistory: one exponent literal near the float64 limit under fixed schemas before and after a fractional multipleOf judged the same literal. mirroredDocument: one *Schema served under 2-5 mirror URIs whose neighbours differ; 8 Resolve calls must agree, and the digest across processes.",
+ "C15": " Property names that are other names joined by a separator, with required lists that join to the same text; defaults beside references in both drafts (L5). Integer defaults just outside int8/uint8/int16/uint16 (typed map holders of those kinds must refuse them).",
+ "C16": " TypeSchemas tables of up to 15 entries, overrides of every built-in translation, entries keyed by unnamed types or written in tuple-items form, decoy inference calls with other options first, JSON-name collision types (acceptance by Resolve/Marshal only), self-referential pointer and array types. Entries that name other properties than the embedded struct's fields, embedded by value and by pointer (substitution itself is checked); results inferred without caller entries are written THROUGH their number pointers before the next call; json.Number fields. Tags that spell the embedded type's own Go name; embedded structs hidden by a shallower Go name.",
+ "C17": " A fifth of the valid locations is served by a Loader (document URI + pointer fragment); a lexical $dynamicRef may sit beside the $ref; root $id spellings that need normalising. Invalid class other-definitions-keyword (/definitions/... where only $defs exists). Keys with U+FFFD, U+FEFF, U+00A0 and astral characters; pointers into the boolean schema false (pinned known finding KF-C17-1 for the route through its internal not).",
  "C18": " Unreferenced $defs/definitions entries whose $id is a near variant (trailing slash, empty segment, query, case) of a referenced resource; roots of Loader-served unevaluated* schemas decorated with content that mentions unevaluated*. Loader documents entered through $anchor or holding $id beside $ref, decorated with unreferenced definitions under either spelling, unknown keywords and annotations.",
- "C19": " One level in ten has 12-257 properties; one sub-schema object may be the value of two properties. The empty and the blank property name.",
- "C20": " A fifth of the inputs are DAGs (one sub-schema object used at two places). Chains of 999-20000 levels built in Go (one case in 400).",
+ "C19": " One level in ten has 12-257 properties; one sub-schema object may be the value of two properties. The empty and the blank property name. Names above U+FFFF next to names in U+E000..U+FFFF.",
+ "C20": " A fifth of the inputs are DAGs (one sub-schema object used at two places). Chains of 999-20000 levels built in Go (one case in 400). A clone is edited in Go (sub-schemas added where there were none) and cloned again.",
 }
 
 PENDING = []
